@@ -13,7 +13,8 @@ func C10_response_template() {
 	vRandConcrete(true)
 	var d Dialer
 	d.Protocols = []string{"chat", "superchat"}
-	d.Extensions = []httphead.Option{httphead.NewOption("permessage-deflate", nil), httphead.NewOption("x-ext", nil)}
+	d.Extensions = []httphead.Option{httphead.NewOption("permessage-deflate", map[string]string{"client_max_window_bits": "10"}), httphead.NewOption("x-ext", nil)}
+	wantExtParams := ""
 	version := []byte("HTTP/1.1")
 	status := []byte("101")
 	upgrade := "Upgrade: websocket"
@@ -103,10 +104,15 @@ func C10_response_template() {
 			wantProto = "chat"
 		}
 	case 8: // extensions
-		switch vChoose("ext", 3) {
+		switch vChoose("ext", 4) {
 		case 0:
 			extra = append(extra, "Sec-WebSocket-Extensions: permessage-deflate; server_no_context_takeover")
 			wantExt = 1
+			wantExtParams = "server_no_context_takeover="
+		case 3: // the server accepts the offered extension WITHOUT the parameters the client offered
+			extra = append(extra, "Sec-WebSocket-Extensions: permessage-deflate")
+			wantExt = 1
+			wantExtParams = "-"
 		case 1:
 			extra = append(extra, "Sec-WebSocket-Extensions: x-ext, x-unknown")
 			valid = false
@@ -163,5 +169,14 @@ func C10_response_template() {
 	}
 	vAssert(hs.Protocol == wantProto, "resp.protocol_is_servers")
 	vAssert(len(hs.Extensions) == wantExt, "resp.extensions_are_servers")
+	if wantExtParams != "" && len(hs.Extensions) == 1 {
+		got := ""
+		hs.Extensions[0].Parameters.ForEach(func(k, v []byte) bool { got += string(k) + "=" + string(v); return true })
+		if wantExtParams == "-" {
+			vAssert(got == "", "resp.extension_parameters_are_servers_not_the_offer")
+		} else {
+			vAssert(got == wantExtParams, "resp.extension_parameters_are_servers")
+		}
+	}
 	vAssert(br == nil, "resp.nothing_buffered_no_reader")
 }
